@@ -159,6 +159,12 @@ theorem stepOk_rename_replaced (hv : v.files = F1 ++ f :: F2) (hw : v.wfB = true
 end replace
 
 
+/-- a refused operation after which the same records are read from a well-formed volume is allowed -/
+theorem stepOk_refused_files {P : FsParams} {v v' : Vol} (hw : v.wfB = true) (hw' : v'.wfB = true) (hf : v'.files = v.files)
+    (op : FsOp) : stepOk P v op false v' = true := by
+  have hs : sameFiles v.files v'.files = true := by rw [hf]; exact sameFiles_refl (wfB_paths_nodup hw)
+  cases op <;> simp [stepOk, stepConds, hw', hs]
+
 /-! ## removing one record -/
 
 theorem allOwned_split (F1 F2 : List FileRec) (f : FileRec) :
@@ -261,5 +267,127 @@ theorem stepOk_delete_removed (hv : v.files = F1 ++ f :: F2) (hw : v.wfB = true)
   simp [stepOk, stepConds, hw', h1, hgone, h3, hl]
 
 end remove
+
+
+/-! ## inserting one record -/
+
+def inserted (v : Vol) (F1 F2 : List FileRec) (g : FileRec) (free' : List Nat) : Vol :=
+  { v with files := F1 ++ g :: F2, freeUnits := free' }
+
+section insert
+variable {P : FsParams} {v : Vol} {F1 F2 : List FileRec} {g : FileRec} {free' : List Nat}
+
+theorem wfB_insert (hv : v.files = F1 ++ F2) (hw : v.wfB = true) (hgn : g.owned.Nodup) (hgf : ∀ x ∈ g.owned, x ∈ v.freeUnits)
+    (hnd : free'.Nodup) (hfree : ∀ x, x ∈ free' ↔ x ∈ v.freeUnits ∧ x ∉ g.owned) (hp : g.path ∉ v.paths)
+    (hc : (g.chunks.map (·.1)).Pairwise (· < ·)) : (inserted v F1 F2 g free').wfB = true := by
+  obtain ⟨h1, h2, h3, h4, h5, h6, h7⟩ := wfB_iff.1 hw
+  have hao : v.allOwned = F1.flatMap (·.owned) ++ F2.flatMap (·.owned) := by
+    unfold Vol.allOwned; rw [hv, List.flatMap_append]
+  have hao' : (inserted v F1 F2 g free').allOwned = F1.flatMap (·.owned) ++ (g.owned ++ F2.flatMap (·.owned)) := by
+    unfold Vol.allOwned inserted; simp [List.flatMap_append, List.flatMap_cons]
+  have hn := List.nodup_append.1 h2
+  rw [hao] at hn h1 h3
+  have hnA := List.nodup_append.1 hn.1
+  have hgA : ∀ x ∈ g.owned, x ∉ F1.flatMap (·.owned) ∧ x ∉ F2.flatMap (·.owned) ∧ x ∉ v.sys := by
+    intro x hx
+    refine ⟨fun h => h3 x (List.mem_append_left _ h) (hgf x hx), fun h => h3 x (List.mem_append_right _ h) (hgf x hx),
+      fun h => h4 x h (hgf x hx)⟩
+  rw [wfB_iff]
+  refine ⟨?_, ?_, ?_, ?_, ⟨hnd, ?_⟩, ?_, ?_⟩
+  · rw [hao']
+    intro u hu
+    rcases List.mem_append.1 hu with h | h
+    · exact h1 u (List.mem_append_left _ h)
+    · rcases List.mem_append.1 h with h | h
+      · exact h5.2 u (hgf u h)
+      · exact h1 u (List.mem_append_right _ h)
+  · rw [hao']
+    show ((F1.flatMap (·.owned) ++ (g.owned ++ F2.flatMap (·.owned))) ++ v.sys).Nodup
+    refine List.nodup_append.2 ⟨List.nodup_append.2 ⟨hnA.1, List.nodup_append.2 ⟨hgn, hnA.2.1, ?_⟩, ?_⟩, hn.2.1, ?_⟩
+    · intro a ha b hb e; exact (hgA a ha).2.1 (e ▸ hb)
+    · intro a ha b hb e
+      rcases List.mem_append.1 hb with h | h
+      · exact (hgA b h).1 (e ▸ ha)
+      · exact hnA.2.2 a ha b h e
+    · intro a ha b hb e
+      rcases List.mem_append.1 ha with h | h
+      · exact hn.2.2 a (List.mem_append_left _ h) b hb e
+      · rcases List.mem_append.1 h with h | h
+        · exact (hgA a h).2.2 (e ▸ hb)
+        · exact hn.2.2 a (List.mem_append_right _ h) b hb e
+  · rw [hao']
+    intro u hu hf
+    have hf' := (hfree u).1 hf
+    rcases List.mem_append.1 hu with h | h
+    · exact h3 u (List.mem_append_left _ h) hf'.1
+    · rcases List.mem_append.1 h with h | h
+      · exact hf'.2 h
+      · exact h3 u (List.mem_append_right _ h) hf'.1
+  · intro u hu hf; exact h4 u hu ((hfree u).1 hf).1
+  · intro u hu; exact h5.2 u ((hfree u).1 hu).1
+  · show ((F1 ++ g :: F2).map (·.path)).Nodup
+    rw [hv, List.map_append] at h6
+    rw [paths_split]
+    have hnp := List.nodup_append.1 h6
+    have hp' : g.path ∉ F1.map (·.path) ∧ g.path ∉ F2.map (·.path) := by
+      unfold Vol.paths at hp; rw [hv, List.map_append, List.mem_append, not_or] at hp; exact hp
+    refine List.nodup_append.2 ⟨hnp.1, List.nodup_cons.2 ⟨hp'.2, hnp.2.1⟩, ?_⟩
+    intro a ha b hb e
+    rcases List.mem_cons.1 hb with rfl | hb
+    · exact hp'.1 (e ▸ ha)
+    · exact hnp.2.2 a ha b hb e
+  · intro x hx
+    have hx' : x ∈ F1 ++ g :: F2 := hx
+    rcases List.mem_append.1 hx' with h | h
+    · exact h7 x (by rw [hv]; exact List.mem_append_left _ h)
+    · rcases List.mem_cons.1 h with rfl | h
+      · exact hc
+      · exact h7 x (by rw [hv]; exact List.mem_append_right _ h)
+
+theorem stepOk_put_inserted (hv : v.files = F1 ++ F2) (hw : v.wfB = true) (hgn : g.owned.Nodup) (hgf : ∀ x ∈ g.owned, x ∈ v.freeUnits)
+    (hnd : free'.Nodup) (hfree : ∀ x, x ∈ free' ↔ x ∈ v.freeUnits ∧ x ∉ g.owned) (hp : g.path ∉ v.paths)
+    (hc : (g.chunks.map (·.1)).Pairwise (· < ·)) (hd : g.isDir = false) {cs : List (Nat × Bytes)} {eof ty aux : Nat}
+    (hcm : chunksMatch cs g.chunks = true) (he : g.eof = P.eofRule eof) (ht : P.keepsType = true → g.ftype = ty)
+    (ha : P.keepsAux = true → g.aux = aux) :
+    stepOk P v (.put g.path cs eof ty aux) true (inserted v F1 F2 g free') = true := by
+  have hw' := wfB_insert hv hw hgn hgf hnd hfree hp hc
+  have h1 : v.lookup g.path = none := not_mem_paths_iff.1 hp
+  have h2 : (inserted v F1 F2 g free').lookup g.path = some g := lookup_mid (v := inserted v F1 F2 g free') rfl (wfB_paths_nodup hw')
+  have nd := wfB_paths_nodup hw
+  have hwo : without (inserted v F1 F2 g free').files [g.path] = v.files := by
+    show without (F1 ++ g :: F2) [g.path] = v.files
+    rw [hv]
+    unfold without
+    rw [List.filter_append, List.filter_cons]
+    unfold Vol.paths at hp
+    rw [hv, List.map_append, List.mem_append, not_or] at hp
+    have e1 : F1.filter (fun f => !([g.path] : List Bytes).contains f.path) = F1 := by
+      rw [List.filter_eq_self]
+      intro f hf
+      have : f.path ≠ g.path := fun e => hp.1 (e ▸ List.mem_map_of_mem hf)
+      simpa using this
+    have e2 : F2.filter (fun f => !([g.path] : List Bytes).contains f.path) = F2 := by
+      rw [List.filter_eq_self]
+      intro f hf
+      have : f.path ≠ g.path := fun e => hp.2 (e ▸ List.mem_map_of_mem hf)
+      simpa using this
+    rw [e1, e2]
+    simp
+  have h3 : sameFiles v.files (without (inserted v F1 F2 g free').files [g.path]) = true := by
+    rw [hwo]; exact sameFiles_refl nd
+  have hkt : (!P.keepsType || g.ftype == ty) = true := by
+    cases hk : P.keepsType with
+    | false => rfl
+    | true => simp [ht hk]
+  have hka : (!P.keepsAux || g.aux == aux) = true := by
+    cases hk : P.keepsAux with
+    | false => rfl
+    | true => simp [ha hk]
+  have hown : g.owned.all (fun u => v.freeUnits.contains u) = true := by
+    rw [List.all_eq_true]; intro u hu; simpa using hgf u hu
+  simp [stepOk, stepConds, hw', h1, h2, h3, hcm, hd, he, hkt, hka, hown]
+  exact hgf
+
+end insert
 
 end A2Verif.FsDos
